@@ -19,6 +19,7 @@ import (
 	"bufio"
 	"bytes"
 	"context"
+	"crypto/tls"
 	"encoding/hex"
 	"encoding/json"
 	"fmt"
@@ -205,6 +206,7 @@ type c13In struct {
 	User    string      `json:"user,omitempty"`
 	Headers [][]string  `json:"headers,omitempty"` // name, values...
 	CL      int64       `json:"cl,omitempty"`      // -1 = unknown length
+	TLS     []int       `json:"tls,omitempty"`     // [version, cipher suite]: the request arrived over TLS (no client certificate)
 	Fields  [][2]string `json:"fields,omitempty"`  // responder's header fields
 	RBody   c13S        `json:"rbody,omitempty"`
 }
@@ -692,6 +694,11 @@ func c13RunServe(in *c13In) Result {
 	req := &http.Request{Method: in.Method, URL: u, Proto: in.Proto, ProtoMajor: 1, ProtoMinor: 1, Header: hdr,
 		Host: in.Host, RemoteAddr: in.Remote, ContentLength: in.CL,
 		Body: c13BodyReader(in, body)}
+	qtls := "None"
+	if len(in.TLS) == 2 {
+		req.TLS = &tls.ConnectionState{Version: uint16(in.TLS[0]), CipherSuite: uint16(in.TLS[1]), HandshakeComplete: true}
+		qtls = "(Some " + cPair(cN(uint64(in.TLS[0])), cN(uint64(in.TLS[1]))) + ")"
+	}
 	ctx := context.WithValue(context.Background(), httpserver.OriginalURLCtxKey, *u)
 	ctx = context.WithValue(ctx, casket.CtxKey("path_prefix"), in.Prefix)
 	if in.User != "" {
@@ -777,10 +784,10 @@ poll:
 		return "(Some " + cPair(cStr(h), cStr(p)) + ")"
 	}
 	q := fmt.Sprintf("{| q_method := %s; q_path := %s; q_query := %s; q_requri := %s; q_host := %s; q_remote := %s; q_proto := %s; q_headers := %s; q_prefix := %s; q_user := %s; q_cl := %s; "+
-		"q_cookies := %s; q_qargs := %s; q_osenv := %s; q_host_hp := %s; q_remote_hp := %s |}",
+		"q_cookies := %s; q_qargs := %s; q_osenv := %s; q_host_hp := %s; q_remote_hp := %s; q_tls := %s |}",
 		cStr(in.Method), cStr(in.Path), cStr(in.Query), cStr(u.RequestURI()), cStr(in.Host), cStr(in.Remote), cStr(in.Proto),
 		cList(qh), cStr(in.Prefix), cStr(in.User), cZ(in.CL),
-		cList(cookies), cList(qargs), cList(osenv), hp(in.Host), hp(in.Remote))
+		cList(cookies), cList(qargs), cList(osenv), hp(in.Host), hp(in.Remote), qtls)
 	sv := fmt.Sprintf("{| sv_name := %s; sv_port := %s; sv_software := %s; sv_version := %s |}",
 		cStr(fh.ServerName), cStr(fh.ServerPort), cStr(fh.SoftwareName), cStr(fh.SoftwareVersion))
 	var fields []string
@@ -1301,6 +1308,7 @@ var c13EnvPool = [][2]string{
 	{"ENV_SET", "{$C13_SET}"}, {"ENV_DEF", "{$C13_UNSET=dflt}"}, {"ENV_NONE", "<{$C13_UNSET}>"}, {"ENV_EMPTY_DEF", "{$C13_EMPTY=fallback}"},
 	{"ESCAPED", "lit \\{host\\} {host}"}, {"FILE", "{dir}|{file}"}, {"SCHEME", "{scheme}://{host}{uri}"}, {"SCRIPT_NAME", "/front{path}"},
 	{"RESP_HDR", "{<Content-Type}"}, {"STATUS", "{status}/{size}/{latency}"}, {"REQ_ID", "id={request_id};mitm={mitm};frag={fragment}"},
+	{"X_{host}", "name is literal"}, {"{nope}KEY", "{method}"}, {"K{>X-Auth-User}", "{>X-Auth-User}"},
 	{"DOCUMENT_ROOT", "/srv/{hostonly}"}, {"UNPAIRED", "open {host and } close"}, {"TWICE", "{>X-Auth-User}{>X-Auth-User}-{?missing}-{tls_cipher}"},
 }
 
@@ -1310,6 +1318,10 @@ func c13GenServe(r *Rand) *c13In {
 		Remote: r.Pick([]string{"192.0.2.7:51234", "[2001:db8::1]:443", "unix-peer", "10.0.0.1:1"}),
 		Prefix: r.Pick([]string{"/", "/", "", "/blog"}), User: r.Pick([]string{"", "", "alice"}),
 		Query:  r.Pick([]string{"", "", "a=1&b=2", "q=%20x&y", "x.php"})}
+	if r.Chance(20) { // over TLS: versions with / without a mod_ssl name, suites inside / outside casket's table
+		in.TLS = []int{[]int{0x0301, 0x0302, 0x0303, 0x0303, 0x0304, 0x0304, 0x0300}[r.Intn(7)],
+			[]int{0xc02f, 0xc02c, 0xcca8, 0xcca9, 0x1301, 0x1303, 0x002f, 0x000a, 0xc014, 0x9999}[r.Intn(10)]}
+	}
 	// rules
 	nr := r.Range(1, 2)
 	for i := 0; i < nr; i++ {
@@ -1612,6 +1624,9 @@ func c13GenServeBurst(r *Rand, k int) *c13In {
 		Method: r.Pick([]string{"GET", "GET", "POST", "HEAD"}), Path: r.Pick([]string{"/index.php", "/app/x.php", "/a.php/extra"}),
 		Query: r.Pick([]string{"", "a=1"})}
 	in.Rules = []c13Rule{{Path: "/", Preset: true}}
+	if r.Chance(15) {
+		in.TLS = []int{0x0304, 0x1301}
+	}
 	if r.Bool() {
 		in.Rules[0].Env = [][2]string{c13EnvPool[r.Intn(len(c13EnvPool))]}
 	}
@@ -1702,7 +1717,7 @@ func c13Gen(r *Rand, tier string) []interface{} {
 
 func init() {
 	register(&Property{
-		ID: "C13", Imports: "V.Lib V.C13_Model", Judge: "judge", Shard: 50,
+		ID: "C13", Imports: "V.Lib V.C13_Model", Judge: "judge", Shard: 68,
 		Rule: "cases = (wire) real FCGIClient.Do over an in-memory connection, raw bytes decoded in Coq by a reference responder; " +
 			"(demux) real streamReader over scripted record framings (incl. runs of 1..1000 consecutive stderr records before/inside/after the header block, inside/after the body, after EndRequest), connection segmentations and caller buffer sizes, every Read call observed; " +
 			"(serve) real fastcgi setup + Handler.ServeHTTP on a real directory tree against a byte-level loopback responder (env entries with placeholders that are valued / empty for the request; the same run-length boundary framings); " +
